@@ -95,7 +95,9 @@ def new_receiver(authic, keepmode="full", rxclass=None, **cfg):
     """cfg: the receiver's own transmit settings (code, curt, size), which must not matter for receiving"""
     import logging
     logging.disable(logging.CRITICAL)
-    keep, _ = keep_and_vids(keepmode)
+    keep, vids = keep_and_vids(keepmode)
+    if "vid" in cfg:                 # the receiver's OWN signer id (index into the signers), used when IT sends
+        cfg = dict(cfg, vid=vids[cfg["vid"]])
     if rxclass == "auth":            # AuthMemoer forces authic=True (and a signed code unless one is given)
         m = memoer_class(auth=True)(keep=keep, **cfg)
         assert m.authic
